@@ -570,8 +570,13 @@ func Queue[V any](arguments ...any) col.QueueLike[V] {
 	case sequence != nil:
 		queue = class.MakeFromSequence(sequence)
 	case len(source) > 0:
-		queue = class.Make()
 		var collection = notation.ParseSource(source).(col.Sequential[any])
+		// The queue must be able to hold all of the parsed values.
+		var size = uint(collection.GetSize())
+		if size < class.DefaultCapacity() {
+			size = class.DefaultCapacity()
+		}
+		queue = class.MakeWithCapacity(size)
 		// Convert the values to their real type.
 		var iterator = collection.GetIterator()
 		for iterator.HasNext() {
